@@ -17,7 +17,7 @@ type S1 struct {
 	B int64
 }
 
-func (*S1) M()    {}
+func (*S1) M()   {}
 func (S1) N(int) {}
 
 type E1 interface{ M() }
@@ -66,4 +66,33 @@ var Pool = []reflect.Type{
 		B struct{}
 	}{}), // 33
 	Decls[11], // 34
+}
+
+// Embedding shapes for the corpus half (selector lookup): a diamond and two sibling embedded
+// types with identical underlying structs; V is ambiguous in both, W is found once.
+type DiaC struct{ V, W int }
+type DiaA struct{ DiaC }
+type DiaB struct {
+	DiaC
+	W int
+}
+type Dia struct {
+	DiaA
+	DiaB
+}
+type TwinP struct{ V int }
+type TwinQ struct{ V int }
+type Twins struct {
+	TwinP
+	TwinQ
+	W int
+}
+
+func (DiaC) Mc()  {}
+func (TwinP) Mp() {}
+func (TwinQ) Mp() {}
+
+// Shapes lists the extra compiled types whose selectors the corpus compares with reflect.
+var Shapes = map[string]reflect.Type{
+	"Dia": reflect.TypeOf(Dia{}), "Twins": reflect.TypeOf(Twins{}), "DiaA": reflect.TypeOf(DiaA{}), "DiaB": reflect.TypeOf(DiaB{}),
 }
